@@ -409,6 +409,21 @@ Lemma readers_straddle_the_purge :
   snd (run_sched w_purge ps (in_order [1; 0]%nat)) = [Some (TOut (OSubRes SubAuth)); Some (TOut OBlockRes)].
 Proof. vm_compute. repeat split; reflexivity. Qed.
 
+(* 7. get_subscription_info || add_appointment of the same user: the request is charged (21 events), the reader reads the
+      user's info (9 slots) and the locators (none yet), the request stores the row: "9 slots, no appointment" - before
+      the request the reader is told 10 slots and no locator, after it 9 slots and locator 7 *)
+Definition w_getsub_midway : list nat := repeat 0%nat 21 ++ repeat 1%nat 60 ++ repeat 0%nat 300.
+
+Lemma reader_sees_the_charge_before_the_appointment :
+  let ps := [w_add; getsub_p (Some 1)] in
+  snd (run_sched w_reg ps w_getsub_midway) =
+    [Some (TOut (OAddRes (AddOk 120 1 9 520))); Some (TOut (OSubRes (SubOk 9 520 [])))] /\
+  snd (run_sched w_reg ps (in_order [0; 1]%nat)) =
+    [Some (TOut (OAddRes (AddOk 120 1 9 520))); Some (TOut (OSubRes (SubOk 9 520 [7])))] /\
+  snd (run_sched w_reg ps (in_order [1; 0]%nat)) =
+    [Some (TOut (OAddRes (AddOk 120 1 9 520))); Some (TOut (OSubRes (SubOk 10 520 [])))].
+Proof. vm_compute. repeat split; reflexivity. Qed.
+
 (* ------------------------------------------------------------------------------------------ *)
 (* the guard is necessary: add_appointment with the locator-cache guard dropped after the look-up (the
    store happens outside the critical section) — everything else unchanged — misses a breach: the
